@@ -72,6 +72,7 @@ fn universe(tier: Tier, v: &mut impl Visitor) {
     v.visit::<f32, num_dual::DualSVec32<2>>(Dims::n(2));
     v.visit::<f64, num_dual::Dual2<num_dual::Dual64, f64>>(Dims::NONE);
     v.visit::<f32, num_dual::Dual2<num_dual::Dual32, f32>>(Dims::NONE);
+    fourth_order_types(v);
     if tier == Tier::Thorough {
         v.visit::<f64, num_dual::DualDVec64>(Dims::n(3));
         v.visit::<f64, num_dual::Dual2DVec64>(Dims::n(2));
@@ -79,7 +80,6 @@ fn universe(tier: Tier, v: &mut impl Visitor) {
         v.visit::<f32, num_dual::Dual2SVec32<2>>(Dims::n(2));
         v.visit::<f32, num_dual::HyperDualSVec32<2, 2>>(Dims::mn(2, 2));
         v.visit::<f64, num_dual::Dual<num_dual::Dual2_64, f64>>(Dims::NONE);
-        v.visit::<f64, num_dual::Dual2<num_dual::Dual2_64, f64>>(Dims::NONE);
     }
 }
 
